@@ -370,7 +370,11 @@ def case_strategy(draw, fmt):
                 "seed": draw(st.integers(0, 11)), "face_style": draw(st.sampled_from(["v", "v", "v/vt", "v//vn", "v/vt/vn"])),
                 "dim_two_lines": draw(st.booleans()), "refs": draw(st.booleans()), "extra_blocks": draw(st.booleans()),
                 "comments": draw(st.booleans()), "end": draw(st.booleans()), "stl_kind": draw(st.sampled_from(["binary", "binary", "ascii"])),
-                "indent": draw(st.booleans())}
+                "indent": draw(st.booleans()),
+                # several 'solid ... endsolid' blocks in one ascii stl file (one per part); 'o' / 'g' / 's' records in obj files
+                "solids": draw(st.sampled_from([1, 1, 2, 3, 5])), "groups": draw(st.booleans())}
+    # the container type of the ignore_elements argument (membership is all that save needs)
+    c["ig_form"] = draw(st.sampled_from(["set", "set", "frozenset", "list", "tuple"]))
     return c
 
 
@@ -804,7 +808,11 @@ def fn_roundtrip(case, ctx):
     try:
         path = os.path.join(d, "m." + (fmt.upper() if case.get("ext_upper") else fmt))
         soup = stl_soup(N["V"], P["F"]) if fmt == "stl" else None
-        ig_arg = None if ignore is None else set(ignore)
+        ig_form = case.get("ig_form", "set")
+        ig_arg = None if ignore is None else {"set": set, "frozenset": frozenset, "list": list, "tuple": tuple}[ig_form](ignore)
+        ig_copy = None if ignore is None else type(ig_arg)(ig_arg)
+        if ignore is not None:
+            ctx.label("ignore-arg=" + ig_form)
         try:
             if ignore is None:
                 M.mesh.save(m, path)
@@ -836,7 +844,7 @@ def fn_roundtrip(case, ctx):
         ctx.check(s1 == s0 and attr_table(m, case) == orig_attrs, "save:source-mesh-changed",
                   f"after save(ignore_elements={ignore}) the mesh that was saved holds {short(s1, 300)}, before {short(s0, 300)}")
         data = open(path, "rb").read()
-        ctx.check(ig_arg is None or ig_arg == set(ignore), "save:argument-changed", f"save changed its ignore_elements argument to {ig_arg!r} (was {set(ignore or [])!r})")
+        ctx.check(ig_arg is None or ig_arg == ig_copy, "save:argument-changed", f"save changed its ignore_elements argument to {ig_arg!r} (was {ig_copy!r})")
         second = case.get("second") or {}
         if second.get("save"):
             # the same mesh object (and the same ignore set) saved a second time must give the same file
@@ -923,6 +931,11 @@ def fn_roundtrip(case, ctx):
         same = compare_loaded(ctx, "rt", snap, exp, "load(save(m))", per_kind=(fmt == "mesh"))
         if same and loaded is not None and second.get("load"):
             second_load(ctx, path, second["load"], snap, exp, P)
+            try:
+                again = snapshot(loaded)
+            except ValueError as e:
+                again = {"malformed": str(e)}
+            ctx.check(again == snap, "load2:first-changed", f"the mesh returned by the first load changed when the file was loaded again: {short(again, 300)} vs {short(snap, 300)}")
 
         # ---------------- oracle 4: attributes (geogram) / normals (xyz)
         if loaded is None:
@@ -1012,6 +1025,8 @@ def fn_ext(case, ctx):
                                 "off": ("blank", "spaces"), "tet": ("blank", "spaces"), "xyz": ("blank", "spaces"), "stl": ()}[fmt]:
             ctx.label("var:" + k)
     ctx.label("var:floats=" + var["floats"])
+    if fmt == "obj" and var.get("groups"):
+        ctx.label("var:obj-groups")
     d = tempfile.mkdtemp(prefix="c04_")
     try:
         path = os.path.join(d, "x." + (fmt.upper() if case.get("ext_upper") else fmt))
@@ -1071,6 +1086,8 @@ def fn_ext(case, ctx):
                 for k in range(1, len(f) - 1):
                     tris.append([V[f[0]], V[f[k]], V[f[k + 1]]])
             ctx.label("var:stl=" + var["stl_kind"])
+            if var["stl_kind"] == "ascii":
+                ctx.label("var:stl-ascii-solids=" + str(var.get("solids", 1)) + ("" if len(tris) >= var.get("solids", 1) else "(some empty)"))
             if var["stl_kind"] == "binary":
                 text = R.write_stl_binary(tris)
             else:
@@ -1137,11 +1154,90 @@ def fn_ext(case, ctx):
 # ================================================================================================ registration
 
 NAMES = {"obj": "obj", "mesh": "medit", "geogram_ascii": "geogram", "off": "off", "tet": "tet", "xyz": "xyz", "stl": "stl"}
+# ================================================================================================ size regime: files of several MiB
+
+# vertices needed for a file comfortably above 1 MiB (and above 2 MiB for the larger class), per format
+LARGE_NV = {"obj": 20000, "mesh": 20000, "geogram_ascii": 15000, "off": 21000, "tet": 24000, "xyz": 30000, "stl": 15000}
+
+
+@st.composite
+def large_case(draw):
+    fmt = draw(st.sampled_from(FORMATS))
+    nv = int(LARGE_NV[fmt] * draw(st.sampled_from([1.0, 1.0, 1.0, 1.9])))
+    nu = draw(st.integers(40, 220))
+    return {"fmt": fmt, "large": {"nu": nu, "nv": max(2, -(-nv // nu)), "tri": draw(st.booleans()) or fmt == "off",   # (off: triangles, see F-C04-1)
+                                  "box": draw(st.integers(4, 9)), "scale": draw(st.sampled_from([1.0, 1 / 3, 1e-7, 12345.678])),
+                                  "mix": draw(st.integers(1, 50))},
+            "cfg": {"export_edges_in_obj": True, "complete_edges_from_faces": draw(st.sampled_from([True, True, False]))},
+            "var": {"blank": False, "spaces": False, "floats": draw(st.sampled_from(["repr", "17g"])), "seed": draw(st.integers(0, 11)),
+                    "face_style": draw(st.sampled_from(["v", "v//vn"])), "dim_two_lines": False, "refs": draw(st.booleans()), "extra_blocks": False,
+                    "comments": False, "end": True, "stl_kind": draw(st.sampled_from(["binary", "ascii"])), "indent": True,
+                    "solids": draw(st.sampled_from([1, 2])), "groups": draw(st.booleans())},
+            "vform": draw(st.sampled_from(["list", "numpy"]))}
+
+
+def realise_large(rec):
+    """the full case of a large-file recipe: a nu x nv grid surface (quads or triangles) with 17-digit coordinates; for .tet (and
+    half of the medit cases) a Kuhn-subdivided box of tetrahedra followed by as many free vertices as the size needs"""
+    L = rec["large"]
+    nu, nv, s, mix = L["nu"], L["nv"], L["scale"], L["mix"]
+    fmt = rec["fmt"]
+    V = [[(i * 0.1 + ((i * j) % 7) / 3.0) * s, (j / 3.0 - 5.0) * s, (((i * 31 + j * 17 + mix) % 101) / 7.0) * s] for j in range(nv) for i in range(nu)]
+    E, F, C = [], [], []
+    kind = "surface"
+    if fmt == "xyz":
+        kind = "pointcloud"
+    elif fmt == "tet" or (fmt == "mesh" and mix % 2 == 0):
+        kind = "tets"
+        b = L["box"]
+        def vid(i, j, k):
+            return (k * (b + 1) + j) * (b + 1) + i
+        for k in range(b):
+            for j in range(b):
+                for i in range(b):
+                    c = [vid(i + di, j + dj, k + dk) for dk in (0, 1) for dj in (0, 1) for di in (0, 1)]
+                    for p in ((1, 3), (1, 5), (2, 3), (2, 6), (4, 5), (4, 6)):        # the six tetrahedra around the diagonal 0-7
+                        C.append([c[0], c[p[0]], c[p[1]], c[7]])
+        for k in range(b + 1):
+            for j in range(b + 1):
+                for i in range(b + 1):
+                    V[vid(i, j, k)] = [i * s * 1.1, j * s / 3.0, k * s * 0.7]
+    else:
+        for j in range(nv - 1):
+            for i in range(nu - 1):
+                a = j * nu + i; b_, c, d = a + 1, a + nu + 1, a + nu
+                if L["tri"]:
+                    F += [[a, b_, c], [a, c, d]]
+                else:
+                    F.append([a, b_, c, d])
+        E = [[1, 0], [nu, 0], [len(V) - 1, len(V) - 2]]
+    return {"fmt": fmt, "kind": kind, "V": V, "E": E, "F": F, "C": C, "cfg": rec["cfg"], "ignore": None, "attrs": [], "var": rec["var"],
+            "ext_upper": False, "vform": rec.get("vform", "list"), "second": {"save": False, "load": "same" if mix % 3 == 0 else None},
+            "ig_form": "set", "tags": []}
+
+
+def fn_large(case, ctx):
+    full = realise_large(case)
+    ctx.label("large:" + case["fmt"])
+    fn_roundtrip(full, ctx)
+    ctx.label("large:rt:" + case["fmt"] + (":>2MiB" if case["large"]["nu"] * case["large"]["nv"] > 1.5 * LARGE_NV[case["fmt"]] else ":>1MiB"))
+
+
+def fn_large_ext(case, ctx):
+    full = realise_large(case)
+    ctx.label("large:" + case["fmt"])
+    fn_ext(full, ctx)
+    ctx.label("large:ext:" + case["fmt"] + (":>2MiB" if case["large"]["nu"] * case["large"]["nv"] > 1.5 * LARGE_NV[case["fmt"]] else ":>1MiB"))
+
+
 SUBCHECKS = []
 # (off last: a shard stops at its first failing sub-check, and off carries the quad/tetrahedron dialect finding)
 for _f in ["obj", "mesh", "geogram_ascii", "tet", "xyz", "stl", "off"]:
     SUBCHECKS.append(SubCheck(NAMES[_f], case_strategy(_f), fn_roundtrip, quick=200 if _f == "stl" else 320, thorough=1500))
     SUBCHECKS.append(SubCheck(NAMES[_f] + "_ext", case_strategy(_f), fn_ext, quick=120 if _f == "stl" else 240, thorough=1000))
+# files well above any plausible buffer / chunk size of the readers and writers (1 - 5 MiB); few cases, each costs seconds
+SUBCHECKS.insert(0, SubCheck("large_ext", large_case(), fn_large_ext, quick=24, thorough=12, watchdog=(180, 400)))
+SUBCHECKS.insert(0, SubCheck("large", large_case(), fn_large, quick=24, thorough=12, watchdog=(180, 400)))
 
 
 # ---------------------------------------------------------------------------------------------- proposed known findings
